@@ -166,6 +166,7 @@ type Interp struct {
 	clockLast      *Term
 	randStates     map[*Loc]*Term
 	stubbed        map[string]bool
+	sigFacts       []sigFact
 	randPre        []*Term // pre-allocated math/rand draws (nd.RandInts)
 	abstractArith  bool    // nd.AbstractArith(): see Solver.Abstract
 	absSolver      *Solver // lazily started abstract-arithmetic solver
@@ -220,6 +221,7 @@ func (in *Interp) resetPath(prefix []int) {
 	in.clockLast = nil
 	in.randStates = nil
 	in.stubbed = nil
+	in.sigFacts = nil
 }
 
 func (in *Interp) end(status, msg string) {
